@@ -20,9 +20,9 @@ func (r *rng) next() uint64 {
 	z = (z ^ (z >> 27)) * 0x94D049BB133111EB
 	return z ^ (z >> 31)
 }
-func (r *rng) n(k int) int     { return int(r.next() % uint64(k)) }
-func (r *rng) u8() uint8       { return uint8(r.next()) }
-func (r *rng) u16() uint16     { return uint16(r.next()) }
+func (r *rng) n(k int) int       { return int(r.next() % uint64(k)) }
+func (r *rng) u8() uint8         { return uint8(r.next()) }
+func (r *rng) u16() uint16       { return uint16(r.next()) }
 func (r *rng) chance(p int) bool { return r.n(100) < p }
 
 var edge16 = []uint16{0x0000, 0x0001, 0x00ff, 0x0100, 0x7fff, 0x8000, 0xfffe, 0xffff, 0x0fff, 0x1000, 0x7f00, 0x80ff}
@@ -324,6 +324,17 @@ func genRun(r *rng, out *bufio.Writer, n int) {
 		v.Kind = "run"
 		v.N = 1 + r.n(3)
 		v.Intr = nil
+		var handlers []Override
+		if r.chance(30) {
+			// a request is already pending when Run is entered (also on a CPU whose halted indication is still set from an earlier Run):
+			// NMI, or a maskable one in mode 1 with IFF1 set or clear; returning handlers at 0066h / 0038h, program and stack out of their way
+			v.Intr = &Intr{Type: r.n(2)}
+			v.IM = 1
+			v.HALT = r.chance(50)
+			v.W[12] = uint16(0x0100 + r.n(0xe000))
+			v.W[11] = uint16(0xf000 + r.n(0x800))
+			handlers = []Override{{0x0038, []uint8{0xfb, 0xed, 0x4d}}, {0x0066, []uint8{0xed, 0x45}}}
+		}
 		var prog []uint8
 		var starts []uint16
 		k := r.n(13)
@@ -336,7 +347,7 @@ func genRun(r *rng, out *bufio.Writer, n int) {
 		}
 		haltAt := v.W[12] + uint16(len(prog))
 		prog = append(prog, 0x76)
-		v.Over = []Override{{v.W[12], prog}}
+		v.Over = append([]Override{{v.W[12], prog}}, handlers...)
 		switch r.n(8) {
 		case 0:
 			v.BP = "nil"
